@@ -213,8 +213,9 @@ array_count_t model_allocator_checkpoint_restore(struct mm_state *self, array_co
 		struct buddy_state *b = array_get_at(self->buddies, k);
 		const struct buddy_checkpoint *c = checkpoint_full_restore(array_get_at(self->buddies, k), buddy_ckp);
 		if(unlikely(c == NULL)) {
-			buddy_init(b);
-			self->full_ckpt_size += offsetof(struct buddy_checkpoint, base_mem);
+			// created after the checkpoint: drop it, or re-executed allocations may be served from it
+			(void)array_remove_at(self->buddies, k);
+			mm_free(b);
 		} else {
 			buddy_ckp = c;
 		}
